@@ -225,6 +225,10 @@ def eq_nan(a, b):
     return a == b and type(a) in (type(b), bool, int) or (a == b and isinstance(a, (int, float)) and isinstance(b, (int, float))) or a == b
 
 
+class WrapperRefused(Exception):
+    pass
+
+
 def gen_value(rng, marshal, depth):
     """value-first generator: nested Python values, homogeneous and heterogeneous"""
     r = rng.random()
@@ -245,7 +249,12 @@ def gen_value(rng, marshal, depth):
         if k == 5:
             w = rng.choice(wraps)
             lo, hi = mc.BASIC_INT[w.dbusSignature] if w.dbusSignature != 'b' else (0, 1)
-            return w(rng.choice([lo, hi, rng.randint(lo, hi)]))
+            x = rng.choice([lo, hi, rng.randint(lo, hi)])
+            try:
+                return w(x)
+            except Exception as e:
+                # the explicit wrapper types select exactly their DBus type: every value of the type must be accepted
+                raise WrapperRefused('%s(%d) raises %s: %s' % (w.__name__, x, type(e).__name__, e))
         if k == 6:
             return marshal.ObjectPath(rng.choice(mc.PATHS))
         if k == 7:
@@ -409,11 +418,20 @@ def evaluate(ctx, cases, res):
     if vals:
         built = []
         lines = []
+        kept = []
         for i, c in vals:
             rng = random.Random(c['seed'])
-            v = (gen_wild if c.get('wild') else gen_value)(rng, marshal, c['depth'])
+            try:
+                v = (gen_wild if c.get('wild') else gen_value)(rng, marshal, c['depth'])
+            except WrapperRefused as e:
+                res.count(c, nontrivial=True)
+                res.violate({'kind': 'val', 'seed': c['seed'], 'depth': c['depth'], 'wild': c.get('wild', False)},
+                            'a wrapper type refuses a value of its own DBus type: %s' % e, 'wrapper-refuses-value-of-its-type')
+                continue
+            kept.append((i, c))
             built.append(v)
             lines.append('(1 4 %s)' % common.dump(mc.pv_form(v)))
+        vals = kept
         outs = common.run_model(lines)
         # the precondition of the theorem C19_variant_roundtrip, evaluated by the Coq definition
         claims = common.run_model([ln.replace('(1 4 ', '(19 1 ', 1) for ln in lines])
